@@ -131,6 +131,17 @@ def check_window(case):
     st = case["strategy"]
     p = case["p"]
     key = {"strategy": st}
+    if case.get("x_img"):
+        case = dict(case, x=A.ximage(case["x"], case["x_img"]), x_img=None)
+    if case.get("poison"):
+        # history: the uniform grid with the same length, end points and n was recreated just before
+        xx = case["x"]
+        alt = [xx[0] + (xx[-1] - xx[0]) * i / (len(xx) - 1) for i in range(len(xx))]
+        if alt != list(xx):
+            try:
+                RC.cls(st)(np.array(alt, dtype=float), np.array(case["y"], dtype=float), case["n"], **RC.kwargs_for(st, p)).rfa()
+            except Exception:
+                pass
     if case.get("y_off"):
         # the same averages on a large exactly representable level (2^40): jumps are tiny relative to it
         case = dict(case, y=[float(v) + case["y_off"] for v in case["y"]], y_off=0)
